@@ -33,7 +33,7 @@ USERS = [None, "u", "a%40b", "J%F6rg%C3"]   # last: escapes that are not valid U
 PASSWORDS = [None, "", "p%3Aq%FF"]
 HOSTS = [("h.com", "h.com"), ("xn--9ca.com", "xn--9ca.com"), ("1.2.3.4", "1.2.3.4"), ("[::1]", "::1"), ("[fe80::1%eth0]", "fe80::1%eth0")]
 PORTS = [None, 0, "default", 81]
-PATHS = ["", "/", "/p", "/a/b/"]
+PATHS = ["", "/", "/p", "/a/b/", "/d/e.txt", "/x.tar.%67z"]
 QUERIES = ["", "q=1"]
 FRAGS = ["", "f"]
 
@@ -116,6 +116,14 @@ def modifier_calls():
         add("with_path('n m',%s)" % tag, lambda u, kw=kw: u.with_path("n m", **kw), pexp)
         add("with_name('n',%s)" % tag, lambda u, kw=kw: u.with_name("n", **kw), pexp)
         add("with_suffix('.x',%s)" % tag, lambda u, kw=kw: u.with_suffix(".x", **kw), pexp)
+        # ... and the same calls with the value the URL already has (a "nothing to do" shortcut must still clear query and fragment)
+        add("with_path(<its own path>,%s)" % tag, lambda u, kw=kw: u.with_path(u.path, **kw), pexp)
+        add("with_name(<its own name>,%s)" % tag, lambda u, kw=kw: u.with_name(u.name, **kw), pexp)
+        add("with_suffix(<its own suffix>,%s)" % tag, lambda u, kw=kw: u.with_suffix(u.suffix, **kw), pexp)
+        add("with_suffix(<its own raw suffix>, encoded... ,%s)" % tag, lambda u, kw=kw: u.with_suffix(u.raw_suffix, **kw), pexp)
+    add("with_scheme(<its own scheme>)", lambda u: u.with_scheme(u.scheme), lambda b: {})
+    add("with_port(<its own explicit port>)", lambda u: u.with_port(u.explicit_port), lambda b: {})
+    add("with_host(<its own raw host>)", lambda u: u.with_host(u.raw_host), lambda b: {})
     cleared = lambda b: {"path": q, "query": "", "fragment": ""}  # noqa: E731
     add("with_path('/é', encoded=False)", lambda u: u.with_path("/é"), cleared)
     add("with_path('/%41', encoded=True)", lambda u: u.with_path("/%41", encoded=True), cleared)
